@@ -148,6 +148,16 @@ func VerifC12_Service() {
 	r1, ok1 := e.k.GetRequestContext(e.ctx, tmbytes.HexBytes(id))
 	r2, ok2 := e2.k.GetRequestContext(e2.ctx, tmbytes.HexBytes(id))
 	verifAssert(ok1 && ok2 && verifDeepEqual(r1, r2), "the request context answers identically after re-import")
+	// the owner's providers (the index withdrawals by the owner walk)
+	listProviders := func(x *svEnv) (ps []string) {
+		it := x.k.OwnerProvidersIterator(x.ctx, x.owner)
+		defer it.Close()
+		for ; it.Valid(); it.Next() {
+			ps = append(ps, string(it.Key()))
+		}
+		return
+	}
+	verifAssert(verifDeepEqual(listProviders(e), listProviders(e2)), "the owner's providers are listed identically after re-import")
 	verifAssert(verifDeepEqual(e.k.GetParams(e.ctx), e2.k.GetParams(e2.ctx)), "the params answer identically after re-import")
 	g2 := ExportGenesis(e2.ctx, e2.k)
 	verifAssert(verifDeepEqual(*g, *g2), "a second export equals the first")
